@@ -179,6 +179,9 @@ def main(argv=None):
             if v["contract"].startswith(prop + "."):
                 records.append((src, {"pred": "contract." + v["contract"], "cls": "online", "n": 1, "worst": None, "thr": None, "ok": False, "sig": str(v.get("detail"))[:300]}))
         for cname, cnt in con.get("counters", {}).items():
+            if cname.startswith(prop + ".") and cname.endswith("#monitor_error"):
+                inconclusive.append("case %s: the online contract %s failed in its own code %d times" % (tag, cname, cnt))
+                continue
             if cname.startswith(prop + ".") and not cname.endswith("#violations"):
                 records.append((src, {"pred": "contract." + cname, "cls": "online", "n": cnt, "worst": 0.0, "thr": 0.0, "ok": True}))
                 nrec += cnt
